@@ -222,6 +222,19 @@ func (g *gen) variant(c *apd.Context, x *apd.Decimal) *apd.Decimal {
 		if g.r.Intn(2) == 0 {
 			y.Negative = !y.Negative
 		}
+		if x.Form == apd.Infinite && g.r.Intn(2) == 0 {
+			// two infinities left by different overflows in the same context: the unused fields differ in
+			// the coefficient only (same exponent), in the exponent only, or in both - and carry no value
+			switch g.r.Intn(3) {
+			case 0:
+				y.Coeff.SetInt64(int64(1 + g.r.Intn(999999)))
+			case 1:
+				y.Exponent = x.Exponent + int32(g.pick(1, -1, 7, -7))
+			default:
+				y.Coeff.SetInt64(int64(g.r.Intn(99)))
+				y.Exponent = int32(g.r.Intn(41) - 20)
+			}
+		}
 		return y
 	}
 	switch g.r.Intn(8) {
@@ -264,6 +277,9 @@ func (rn *runner) streamOrder(g *gen) {
 	for i := 0; i < rn.n; i++ {
 		c := g.ctx(false, false)
 		x := g.decimal(c, false)
+		if g.r.Intn(25) == 0 {
+			x = g.garbageInf()
+		}
 		if g.r.Intn(12) == 0 {
 			x = special(apd.Form(g.r.Intn(4)), g.r.Intn(2) == 0)
 			if x.Form == apd.NaN || x.Form == apd.NaNSignaling {
